@@ -264,8 +264,7 @@ def drive_hist(case, extra):
             roots[s] = _execute(plans[op["i"]], dead, nodes[s])
             recycled[s] = sum(1 for n in nodes[s] if id(n) in dead)
         elif op["op"] == "drop":
-            for n in nodes[s]:
-                dead.add(id(n))
+            dead.update([id(n) for n in nodes[s]])      # (a comprehension: no reference survives it)
             roots[s] = None
             while nodes[s]:
                 nodes[s].pop()
